@@ -32,7 +32,8 @@ type detGen struct {
 	ts      int64
 	expSecs []int64
 	varlen  bool // variable-length / binary / empty sub-keys (pebble only: mem radix finding)
-	hllMix  bool // DEL / SET on HyperLogLog keys
+	hllMix  bool // unrestricted SET on HyperLogLog keys (isolate stage)
+	hllState map[string]string
 	lastDel2 string
 	bigUsed  bool  // at most one oversized value per log
 	hot      []int // entry indexes after which a restart cut is most revealing (a command that is expected to fail in its handler after buffering)
@@ -174,15 +175,27 @@ func (g *detGen) cmd() []string {
 		default:
 			return []string{"bpersist", b}
 		}
-	case f < 38: // hyperloglog (a string type in Redis: DEL and SET on the same key are legitimate)
+	case f < 38: // hyperloglog (a string type in Redis: DEL, EXISTS and SET on the same key are legitimate)
 		hk := detHLLTable + ":" + g.pick("pa", "pb")
-		if g.hllMix {
-			switch g.rng.Intn(8) {
-			case 0:
-				return []string{"del", hk}
-			case 1:
-				return []string{"set", hk, g.val()}
+		if g.hllState == nil {
+			g.hllState = map[string]string{}
+		}
+		// narrowed avoid rule of the open finding C07-hll-write-cache: the only thing kept out of
+		// the general corpus is a string write on a key whose HLL may still sit in the write cache
+		// (SET after PFADD without a DEL in between); -hllmix (isolate stage) lifts it
+		switch r := g.rng.Intn(10); {
+		case r < 2:
+			g.hllState[hk] = ""
+			if g.rng.Intn(3) == 0 {
+				return []string{"del", g.k("kb"), hk}
 			}
+			return []string{"del", hk}
+		case r < 3 && (g.hllMix || g.hllState[hk] != "pf"):
+			g.hllState[hk] = "str"
+			return []string{"set", hk, g.val()}
+		}
+		if g.hllState[hk] != "str" {
+			g.hllState[hk] = "pf"
 		}
 		return []string{"pfadd", hk, g.val(), g.val()}
 	case f < 46: // json
@@ -313,7 +326,7 @@ func (g *detGen) failingBatchable() []string {
 		case 2:
 			return []string{"hmset", h(), strings.Repeat("F", 1100), g.val()}
 		default:
-			return []string{"set", kv(), strings.Repeat("V", 1024*1024+10)}
+			return []string{"set", kv(), detBigValue}
 		}
 	}
 }
@@ -385,6 +398,17 @@ func (g *detGen) logKind(n int, kind string, failing bool) []detEntry {
 	out := make([]detEntry, 0, n)
 	for i := 0; i < n; i++ {
 		g.step()
+		if kind == "dense" && !failing && i > 0 && i+2 < n && g.rng.Intn(12) == 0 {
+			// a batchable command that fails in its apply handler, placed right after a
+			// non-batchable one: it is always the FIRST command of its write batch, whatever the
+			// grouping, so the abort it triggers has no earlier command to drop (this is all the
+			// avoid rule of finding C07-batch-abort-on-apply-error leaves out: a failing batchable
+			// command WITH batch predecessors)
+			out = append(out, detEntry{Ts: g.ts, Cmds: [][]string{{"incr", g.k("ia")}}})
+			out = append(out, detEntry{Ts: g.ts + 1, Cmds: [][]string{g.failingBatchable()}})
+			i++
+			continue
+		}
 		if kind == "dense" && failing && i > 0 && i+3 < n && g.rng.Intn(8) == 0 {
 			// the trigger of finding C07-batch-abort-on-apply-error on purpose: two batchable writes
 			// on other keys in their own entries, then a batchable command that fails in its handler
@@ -539,7 +563,37 @@ type detRunner struct {
 	families map[string]int
 }
 
-func detSkipRaw(k []byte) bool { return strings.Contains(string(k), detHLLTable) }
+// detKnownDivergent marks the log positions whose REPLY VALUE is known to depend on the flush
+// state of the HyperLogLog write cache on the unchanged tree (open finding
+// C07-hll-write-cache): DEL with a key of the HLL table.  Nothing else about such a command
+// is excused: the stored data is compared strictly after a final flush.
+func detKnownDivergent(log []detEntry, idx int) string {
+	e, c := idx/100, idx%100
+	if e < len(log) && c < len(log[e].Cmds) {
+		cmd := log[e].Cmds[c]
+		if cmd[0] == "del" {
+			for _, k := range cmd[1:] {
+				if strings.HasPrefix(k, detHLLTable+":") {
+					return "hll-del"
+				}
+			}
+		}
+	}
+	return ""
+}
+
+// detMaskHLL: a stored HyperLogLog value is [type][cached count 8][sketch...][ts 8].  The cached
+// count and the timestamp depend on when the item was loaded into the cache, and the sketch
+// bytes are not canonical either (the sparse form serialises a Go map), so a data record of the
+// HLL table that carries an HLL type byte is compared by presence only; its content is
+// compared through PFCOUNT and EXISTS in the logical dump.  Plain strings stored under such a
+// key are compared in full.
+func detMaskHLL(k, v []byte) []byte {
+	if len(k) > 0 && k[0] == 0x15 && strings.Contains(string(k), detHLLTable+":") && len(v) >= 17 && v[0] <= 8 {
+		return []byte("hll")
+	}
+	return v
+}
 
 // detRunDeadline: a run (one condition, normally well under a second) that does not come back
 // within this time twice in a row is recorded as event `hung` (no action in the specification).
@@ -597,7 +651,7 @@ func (r *detRunner) runInner(log []detEntry, policy string, c detCond, logical b
 				r.panics++
 				continue
 			}
-			r.tw.Emit(trace.M{"ev": "reply", "idx": x.Idx, "r": x.R})
+			r.tw.Emit(trace.M{"ev": "reply", "idx": x.Idx, "r": x.R, "kd": detKnownDivergent(log, x.Idx)})
 			r.stats["replies"]++
 		}
 	}
@@ -667,9 +721,30 @@ func (r *detRunner) runInner(log []detEntry, policy string, c detCond, logical b
 	if !ok {
 		return nil
 	}
-	raw, err := d.rawDump(detSkipRaw)
+	// final flush of the HLL write cache (a checkpoint does it), so that the stored data of every
+	// run is compared in its settled form
+	fb := d.store().Backup(3, uint64(len(log))+1000)
+	for try := 0; fb == nil && try < 50; try++ {
+		time.Sleep(10 * time.Millisecond)
+		fb = d.store().Backup(3, uint64(len(log))+1000)
+	}
+	if fb == nil {
+		return fmt.Errorf("final backup refused")
+	}
+	fb.WaitReady()
+	if _, err := fb.GetResult(); err != nil {
+		return fmt.Errorf("final backup: %v", err)
+	}
+	raw, err := d.rawDump2(nil, detMaskHLL)
 	if err != nil {
 		return err
+	}
+	// a table key counter that is 0 and one that was never written are the same count (the
+	// counter is a merge operand; +1 at a cache flush and -1 at the DEL leave a stored zero)
+	for k, v := range raw {
+		if strings.HasPrefix(k, "0a6d6574613a") && v == "0000000000000000" {
+			delete(raw, k)
+		}
 	}
 	keys := make([]string, 0, len(raw))
 	for k := range raw {
